@@ -550,6 +550,10 @@ class EffectDomain(DefaultDomain):
         return st
 
     def iter_exact(self, value):
+        if isinstance(value, tuple) and value[:1] == ("set",) and len(value) == 2:
+            els = self._set_elements(value)   # a set whose members are decided: iterated in one of its possible orders
+            if els is not None:
+                return list(els)
         if isinstance(value, tuple) and len(value) == 2 and value[0] == "iter" and isinstance(value[1], tuple) and value[1][:1] == ("tuple",):
             return list(value[1][1:])   # a one-shot iterator over a known sequence
         if isinstance(value, tuple) and value[:1] == ("kwitems",):
@@ -661,6 +665,17 @@ class EffectDomain(DefaultDomain):
                             order.append(k)
                         counts[k] = counts.get(k, 0) + n_
                     out.append(val(NONE, g.state.set(key, ("kwdict", tuple((k, ("const", counts[k])) for k in order), "counter"))))
+            elif f.attr == "update" and len(a) == 1 and not call.keywords and cur[2:] != ("counter",) and not (isinstance(a[0], tuple) and a[0][:1] == ("kwdict",)) \
+                    and interp._exact_elements(a[0]) is not None and all(
+                        interp._exact_elements(x) is not None and len(interp._exact_elements(x)) == 2 and self._dkey(interp._exact_elements(x)[0])[0] for x in interp._exact_elements(a[0])):
+                merged, order = dict(cur[1]), [k for k, _ in cur[1]]
+                for x in interp._exact_elements(a[0]):
+                    k_, v_ = interp._exact_elements(x)
+                    k_ = self._dkey(k_)[1]
+                    if k_ not in merged:
+                        order.append(k_)
+                    merged[k_] = v_
+                out.append(val(NONE, r.state.set(key, ("kwdict", tuple((k, merged[k]) for k in order)) + cur[2:])))
             elif f.attr == "update" and len(a) == 1 and not call.keywords and isinstance(a[0], tuple) and a[0][:1] == ("kwdict",):
                 merged = dict(cur[1])
                 order = [k for k, _ in cur[1]]
@@ -1218,6 +1233,12 @@ class EffectDomain(DefaultDomain):
                 return [val(("set", ("empty",)), st)]
             return [r if r.kind == "exc" else val(("set", ("copy", r.value)), r.state) for r in interp._forced(interp.eval(call.args[0], st, fr), fr)]
         f_ = call.func
+        if isinstance(f_, ast.Attribute) and f_.attr in ("union", "difference", "intersection", "copy") and len(call.args) <= 1 and not call.keywords and isinstance(f_.value, ast.Call):
+            # <a set made by a call>.union(other) ...: a new set, nothing is changed in place
+            got = interp.eval_list([f_.value] + list(call.args), st, fr)
+            if got and all(r.kind == "exc" or (isinstance(r.value[0], tuple) and r.value[0][:1] == ("set",)) for r in got):
+                op = {"union": "union", "difference": "minus", "intersection": "meet"}.get(f_.attr)
+                return [r if r.kind == "exc" else val(("set", ("copy", r.value[0])) if op is None else ("set", (op, r.value[0][1], r.value[1] if len(r.value) > 1 else ("empty",))), r.state) for r in got]
         if isinstance(f_, ast.Attribute) and isinstance(f_.value, (ast.Name, ast.Attribute)) and f_.attr in ("update", "difference_update", "add", "discard", "remove", "intersection_update", "copy", "union", "difference") and len(call.args) <= 1:
             key = interp._key_of(f_.value, fr, st)   # a local, or an attribute of self kept in the state
             cur = st.get(key, None) if key is not None else None
